@@ -41,6 +41,8 @@ def oracle(ops, records, listener, armed_before):
         res = o["res"].split(":")[0]
         before = prev
         prev = o
+        if o["res"].startswith("EXC:") or o["res"].startswith("OBSERVE-ERROR"):
+            return ("c27-oracle", i, "step %d (%s) let an internal error escape: %s" % (i, tok, o["res"]))
         if before is None:
             continue
         f0, f1 = before["flags"], o["flags"]
@@ -73,6 +75,12 @@ def oracle(ops, records, listener, armed_before):
                 return ("c27-oracle", i, "step %d (%s) raised %s although the invalidated Connection has no transaction: it should reconnect transparently" % (i, tok, res))
             if res != "DISC" and (o["rid"] == "x" or f1[3] == "1"):
                 return ("c27-oracle", i, "step %d (%s) did not leave the Connection reconnected" % (i, tok))
+        # (h) rollback() always ends the transaction (this is what un-blocks the Connection)
+        if tok == "R" and res == "ok" and o["transaction"] != "N" and f0[2] == "0":
+            return ("c27-oracle", i, "step %d: Connection.rollback() returned normally but transaction object #%s is still attached" % (i, o["transaction"]))
+        # (i) no second transaction can be begun while one is attached, active or not
+        if tok == "b" and before["transaction"] != "N" and res == "ok":
+            return ("c27-oracle", i, "step %d: begin() succeeded while transaction object #%s was still attached" % (i, before["transaction"]))
         # (e) errors not classified as disconnects leave the pool untouched
         if res in ("OE", "IE") and held0 != "x" and f0[2] == "0":
             if o["idle"] != before["idle"] or o["rid"].rstrip("au!") != held0 or f1[3] != f0[3]:
